@@ -87,7 +87,7 @@ def sem_network(n):
     for p in n.populations:
         locs = [[float(i.location.x), float(i.location.y), float(i.location.z)] for i in p.instances]
         size = len(locs) if locs else (int(p.size) if p.size is not None else None)
-        out["pops"][p.id] = {"component": p.component, "size": size, "locs": locs,
+        out["pops"][p.id] = {"component": p.component, "size": size, "locs": locs, "inst_ids": [int(i.id) for i in p.instances],
                              "props": dict((q.tag, q.value) for q in p.properties)}
     for p in n.projections:
         rows = [sem_conn(c) for c in p.connections] + [sem_conn(c) for c in p.connection_wds]
